@@ -90,6 +90,11 @@ claimed = {
    text="For every enumerated (schema, document) the error list of the real Validate must be empty exactly when ref/refvalid — the rules of specification §5 as plain recursive functions (FieldsInSetCanMerge, SameResponseShape, IsVariableUsageAllowed with location defaults, literal coercion table with 32-bit Int, repeatable directives, possible-types intersection from the definitions, oneOf, introspection depth, root existence) — finds no broken rule. The library validates against a schema instance shared by all cases of a worker; the reference reads a second, pristine instance, so state leaking into the shared schema shows up as later disagreements. Rule names on both sides are recorded for diagnosis only.",
    note="Trusted: ref/refvalid (its disagreements with the library on the unchanged tree were each traced to a library defect and repaired, or are undecided by design), the loader for the schema structure (C07). Undecided: numeric literals beyond 64 bits, @skip/@include on subscription roots, fragment variables.",
    ref="DESIGN.md §4 C08"),
+ "C09": dict(
+   technique=T + "every profile document (~97k, incl. a 'links' profile of valid documents with every kind of link at depth) and type-blind document that the library and the reference validator both accept (~33k documents, 1.7·10⁶ links); every node of each is compared with the link computed by the check's own top-down traversal, by pointer identity with the schema validated against",
+   text="For every accepted document the check walks operations, variable definitions (with defaults and directives), selections at every depth, fragment definitions, directives in every position and argument values at every depth (list items, input object fields, list-coerced single values and objects, custom-scalar literals) and requires each link the property lists: Field.Definition / ObjectDefinition, FragmentSpread.Definition / ObjectDefinition, InlineFragment.ObjectDefinition, FragmentDefinition.Definition, Directive.Definition / Location, VariableDefinition.Definition, Value.ExpectedType / Definition, Value.VariableDefinition (in fragments: of some operation). One recorded finding (inline fragments carry the enclosing type) is excused only when the link is exactly the enclosing type's definition.",
+   note="Trusted: the check's traversal (resolves parent types by name through the schema structure), ref/refvalid for the precondition.",
+   ref="DESIGN.md §4 C09"),
 }
 checks = []
 for i in ids:
